@@ -439,3 +439,15 @@ package filter
   prove [built-the-same-way] (bs r1 r2)
   prove [compare-equal] eq
 @*/
+
+/*@ lemma NSName-keeps-no-partial-entry-when-every-id-is-full
+  props C17 C19 C09
+  theory filters nspartials
+  note by induction on the number of ids processed: pf only appends ids with an empty field
+  var ids : (Slice NSN)
+  var base : (Slice NSN)
+  var n : Int
+  induct n
+  assume [every-id-has-both-fields] (forall ((j Int)) (=> (and (<= 0 j) (< j (slen ids))) (idFull (select (sarr ids) j))))
+  prove [no-partial-entries] (=> (<= n (slen ids)) (= (pf ids n base) base))
+@*/
